@@ -180,9 +180,11 @@ def sampling(tier, rng, rep):
         k2 = min(max(k2, 1), n)
         if k1 + k2 > n + 1:
             A = rng.normal(size=(3, k1, n + 1)); B = rng.normal(size=(3, k2, n + 1))
+            if t % 3 == 2:       # subspaces of complex projective space
+                A = A + 1j * rng.normal(size=A.shape); B = B + 1j * rng.normal(size=B.shape)
             for mode, Bm in (("elementwise", B), ("pairwise", B[:2]), ("pairwise", B)):
                 d = k1 + k2 - (n + 1)
-                inp = {"n": n, "k1": k1, "k2": k2, "mode": mode, "A": A.tolist(), "B": Bm.tolist()}
+                inp = {"n": n, "k1": k1, "k2": k2, "mode": mode, "A_re": A.real.tolist(), "A_im": np.imag(A).tolist(), "B_re": Bm.real.tolist(), "B_im": np.imag(Bm).tolist()}
                 S = rep.attempt("intersect_runs", inp, lambda: pr.Subspace(A.copy()).intersect(pr.Subspace(Bm.copy()), broadcast=mode).proj_data)
                 if S is None:
                     continue
